@@ -31,3 +31,60 @@ package workceptor
 //@     invariant KEPT: forall k string :: !isSecret(k) ==> ((k in ed.RemoteParams) == atloop(k in ed.RemoteParams)) && ed.RemoteParams[k] == atloop(ed.RemoteParams[k])
 //@     invariant SHRINK: forall k string :: (k in ed.RemoteParams) ==> atloop(k in ed.RemoteParams)
 //@   ensures REDACTED: typeis(result.ExtraData, "*RemoteExtraData") ==> forall k string :: isSecret(k) ==> !(k in unbox(result.ExtraData, "*RemoteExtraData").RemoteParams)
+
+//@ func (*Workceptor).AllocateRemoteUnit
+//@   tags C19
+//@   requires w != nil
+//@   loop range params
+//@     invariant NOSECRETYET: !hasSecrets ==> forall k string :: visited(k) ==> !isSecret(k)
+//@   site call AllocateUnit NOSECRETSWITHOUTTLS: [C19] requires tlsClient != "" || forall k string :: (k in params) ==> !isSecret(k)
+
+// ---- C15: signature-protected work
+
+//@ immutable workceptorCommand.w, workceptorCommand.subcommand, workceptorCommand.params
+//@ spec sv(w *Workceptor, wt string, sign bool) bool := uf("shouldVerify", "bool", w, wt, sign)
+//@ spec sigok(w *Workceptor, sig string) bool := uf("sigok", "bool", w, sig)
+//@ spec authorized(w *Workceptor, wt string, sig string, unix bool, sign bool) bool := (!sv(w, wt, sign) && sig == "") || (sv(w, wt, sign) && (unix || sigok(w, sig)))
+
+//@ func (*Workceptor).ShouldVerifySignature
+//@   tags C15
+//@   safety
+//@   requires w != nil
+//@   modifies nothing
+//@   ensures REMOTE: workType == "remote" ==> result == signWork
+//@   atrelease LOCAL: workType != "remote" ==> result == ((workType in acq(w.workTypes)) && acq(w.workTypes[workType].verifySignature))
+//@   ensures TRUSTED_NAME: result == sv(w, workType, signWork)
+
+//@ monitor (w *Workceptor) workTypesLock
+//@   protects workTypes
+//@   inv WT: forall k string :: (k in w.workTypes) ==> w.workTypes[k] != nil
+
+//@ iface NetceptorForWorkceptor.NodeID
+//@   pure
+
+//@ func (*Workceptor).VerifySignature
+//@   tags C15
+//@   requires w != nil
+//@   modifies nothing
+//@   ensures EMPTY: signature == "" ==> result != nil
+//@   ensures NOKEY: old(w.VerifyingKey) == "" ==> result != nil
+//@   ensures TRUSTED_NAME: (result == nil) == sigok(w, signature)
+//@   site call VerifyAudience AUDREQUIRED: requires arg2
+//@   site call ParseWithClaims TOKEN: requires arg0 == signature && signature != "" && w.VerifyingKey != ""
+
+//@ func (*workceptorCommand).processSignature
+//@   tags C15
+//@   safety
+//@   requires c != nil && c.w != nil
+//@   modifies nothing
+//@   ensures DECISION: (result == nil) == authorized(c.w, workType, signature, connIsUnix, signWork)
+
+//@ func (*workceptorCommand).ControlFunc
+//@   tags C15
+//@   requires c != nil && c.w != nil && cfo != nil && nc != nil
+//@   site call processSignature UNIXONLY: requires arg3 ==> uf("m_net_Addr_Network", "string", addr) == "unix"
+//@   site call AllocateUnit AUTHZSUBMIT: requires authorized(c.w, arg1, signature, connIsUnix, signWork)
+//@   site call AllocateRemoteUnit AUTHZSUBMITREMOTE: requires authorized(c.w, arg2, signature, connIsUnix, arg5)
+//@   site call Cancel AUTHZCANCEL: requires authorized(c.w, status.WorkType, signature, connIsUnix, signWork)
+//@   site call Release AUTHZRELEASE: requires authorized(c.w, status.WorkType, signature, connIsUnix, signWork)
+//@   site call GetResults AUTHZRESULTS: requires authorized(c.w, status.WorkType, signature, connIsUnix, signWork)
